@@ -35,9 +35,10 @@ MUTANTS = [
      'prune split into two critical sections: a registration in between is lost'),
     ('pyworkers/worker.py', "if child.is_alive()]", "if not child.is_alive()]", 'keeps the dead workers instead of the live ones'),
     ('pyworkers/worker.py', "            cpy = copy.copy(Worker._active_children)\n", "            cpy = copy.copy(Worker._active_children)\n            Worker._active_children = []\n", 'registry emptied by every call'),
-    ('pyworkers/worker.py', "            if not self._dead and not _is_restart:\n", "            if not _is_restart:\n", 'registers workers whose start failed'),
-    ('pyworkers/worker.py', "            if not self._dead and not _is_restart:\n", "            if not self._dead:\n", 'restart registers the worker a second time'),
-    ('pyworkers/worker.py', "        with Worker._children_lock:\n            Worker._active_children.append(child)", "        Worker._active_children.append(child)", 'registration without the lock'),
+    ('pyworkers/worker.py', "            if not self._dead:\n                Worker.register_child(self)", "            if True:\n                Worker.register_child(self)", 'registers workers whose start failed'),
+    ('pyworkers/worker.py', "            if not self._dead:\n                Worker.register_child(self)", "            if not self._dead and not _is_restart:\n                Worker.register_child(self)", 'a restarted worker whose dead incarnation was pruned is not registered again'),
+    ('pyworkers/worker.py', "            if child not in Worker._active_children:\n                Worker._active_children.append(child)", "            Worker._active_children.append(child)", 'restart registers the worker a second time'),
+    ('pyworkers/worker.py', "        with Worker._children_lock:\n            if child not in Worker._active_children:\n                Worker._active_children.append(child)", "        if child not in Worker._active_children:\n            Worker._active_children.append(child)", 'registration without the lock'),
     ('pyworkers/worker.py', "            if not child.wait(timeout=0.1):\n                child.terminate(timeout=0.1)", "            child.wait(timeout=0.1)", 'autoclose no longer terminates stuck workers'),
     ('pyworkers/worker.py', "    try:\n        yield\n    finally:\n        for child in Worker.active_children():", "    yield\n    if True:\n        for child in Worker.active_children():", 'autoclose skipped when the block raises'),
 ]
@@ -142,10 +143,10 @@ def build(ex):
 
     # ---------------------------------------------------------------- L2a
     L2a = Contract(
-        W + '.register_child', lid='L2a', name='C19.L2a register_child appends the worker exactly once, under the lock',
+        W + '.register_child', lid='L2a', name='C19.L2a register_child appends the worker unless it is already registered, under the lock',
         params={'child': ('abs', 'AWorker')},
-        setup=lambda ex_, env: registry_setup(ex_, env),
-        ensures=['Worker._active_children == reg_at_acquire + (child,)'],
+        setup=lambda ex_, env: registry_setup(ex_, env, extra_track=[lower(env['child'], ex_)]),
+        ensures=['Worker._active_children == (reg_at_acquire + (child,) if cnt(child, reg_at_acquire) == 0 else reg_at_acquire)'],
         all_exits=['not lock.held'],
         raises={}, raises_only=[])
 
@@ -171,16 +172,17 @@ def build(ex):
         dead = ex_.interp.truth(h.attrs['_dead']) if '_dead' in h.attrs else True     # never started: no child at all
         started = started if isinstance(started, z3.ExprRef) else z3.BoolVal(bool(started))
         dead = dead if isinstance(dead, z3.ExprRef) else z3.BoolVal(bool(dead))
-        live = z3.And(started, z3.Not(dead), z3.Not(c.env['_is_restart'].e))
+        live = z3.And(started, z3.Not(dead))
         me = c.env['me'].t
         now = ex_.heap[ex_.class_attrs[(W, '_active_children')].addr].seq
         before = ex_.ghost['reg_at_acquire']       # the registry as of the last lock acquisition (other threads may register meanwhile)
-        return cnt_f(me, now) == cnt_f(me, before) + z3.If(live, 1, 0)
-    registered_iff_live.__doc__ = 'the new worker occurs once more in the registry iff its construction ended with a live child and it is not a restart'
+        return cnt_f(me, now) == z3.If(z3.And(live, cnt_f(me, before) == 0), 1, cnt_f(me, before))
+    registered_iff_live.__doc__ = ('a (re)construction that ended with a live child leaves the worker registered: it is appended once unless it already is in the '
+                                   'registry (a restart whose dead incarnation was pruned meanwhile must be registered again); otherwise the registry is unchanged')
 
     L2b = Contract(
         W + '.__init__', lid='L2b',
-        name='C19.L2b construction registers the worker once iff it ended with a live child and is not a restart',
+        name='C19.L2b a construction or restart that ends with a live child leaves the worker registered exactly as often as before, but at least once',
         params={'self': ('const', None), 'target': 'any', 'host': 'none', 'args': 'any', 'kwargs': 'any', 'name': 'any',
                 'userid': 'any', 'run': 'any', 'set_names': 'bool', 'init_state': 'any', '_is_restart': 'bool'},
         setup=init_setup,
